@@ -15,10 +15,15 @@ From NextestModel Require Model.Overrides.
 From NextestModel Require Model.SignalNames Proofs.SignalNames.
 From NextestModel Require Model.DisplaySetting Proofs.DisplaySetting.
 From NextestModel Require Model.Filter Model.FutureQueue Model.Unit Model.Run Model.CliRun Model.ExecuteStream Proofs.ExecuteStream.
+From NextestModel Require Model.NameFilter Model.FilterFull Proofs.FilterGlue.
 Import ListNotations.
 Open Scope N_scope.
 
 Module G := NextestModel.gen.GenGlue.Glue.
+Module BS := NextestModel.Base.Str.
+Module MNF := NextestModel.Model.NameFilter.
+Module MFF := NextestModel.Model.FilterFull.
+Module PFG := NextestModel.Proofs.FilterGlue.
 Module MJ := NextestModel.Model.Junit.
 Module MFl := NextestModel.Model.Filter.
 Module MD := NextestModel.Model.Dispatcher.
@@ -506,4 +511,114 @@ Lemma gen_display_forced_wins :
 Proof.
   intros u s f v. destruct u as [fs ff de]. cbn [G.UnitOutputReporter_force_failure_output G.UnitOutputReporter_force_success_output].
   repeat split; intros; subst; try (destruct r as [| |[] []| |]; try discriminate); bridge.
+Qed.
+
+(* ---------------------------------------------------------------- fourth round: further glue fragments (docs/notes/Gen.md, fourth part) *)
+(* ---------------------------------------------------------------- the whole of TestFilter::filter_match (Model/FilterFull.v, C13 / C04) *)
+(* == block conv_filter == *)
+(* From the model's filter to what the generated functions take. The resolved patterns are seen by their shape; the
+   answers of the matchers (HashSet::contains, AhoCorasick::is_match, Filterset::matches_test, Partitioner::test_matches)
+   are inputs of the generated functions (probes): here they are the model's answers. [d] stands for the value of a probe
+   at a position the source does not ask it (any boolean). The -E filtersets are tokens: their indices. *)
+
+Definition gmismatch_to_model (m : G.MismatchReason) : MFl.mismatch :=
+  match m with
+  | G.MismatchReason_Ignored => MFl.MIgnored
+  | G.MismatchReason_String => MFl.MString
+  | G.MismatchReason_Expression => MFl.MExpression
+  | G.MismatchReason_Partition => MFl.MPartition
+  | G.MismatchReason_DefaultFilter => MFl.MDefaultFilter
+  end.
+Definition gfmatch_to_model (f : G.FilterMatch) : MFl.fmatch :=
+  match f with
+  | G.FilterMatch_Matches => MFl.Matches
+  | G.FilterMatch_Mismatch r => MFl.Mismatch (gmismatch_to_model r)
+  end.
+Definition run_ignored_of_model (r : MFl.run_ignored) : G.RunIgnored :=
+  match r with MFl.RIDefault => G.RunIgnored_Default | MFl.RIOnly => G.RunIgnored_Only | MFl.RIAll => G.RunIgnored_All end.
+Definition patterns_of_model (r : MNF.resolved) : G.ResolvedFilterPatterns :=
+  match r with
+  | MNF.RAll => G.ResolvedFilterPatterns_All
+  | MNF.RSkipOnly _ _ => G.ResolvedFilterPatterns_SkipOnly
+  | MNF.RPatterns _ _ _ _ => G.ResolvedFilterPatterns_Patterns
+  end.
+Definition set_tokens (ets : list (BS.str -> bool)) : list N := map N.of_nat (seq 0 (length ets)).
+Definition exprs_of_model (ets : list (BS.str -> bool)) : G.TestFilterExprs :=
+  match ets with [] => G.TestFilterExprs_All | _ => G.TestFilterExprs_Sets (set_tokens ets) end.
+Definition set_matches_of_model (ets : list (BS.str -> bool)) (name : BS.str) : N -> bool :=
+  fun i => nth (N.to_nat i) ets (fun _ => false) name.
+Definition bound_of_model (b : MFF.bound) : G.FilterBound :=
+  match b with MFF.BAll => G.FilterBound_All | MFF.BDefaultSet => G.FilterBound_DefaultSet end.
+Definition filter_view (f : MFF.tfilter) : G.TestFilter :=
+  G.mk_TestFilter (run_ignored_of_model (MFF.tf_ri f)) (patterns_of_model (MFF.tf_pats f)) (exprs_of_model (MFF.tf_ets f))
+    (match MFF.tf_pb f with Some _ => Some 0 | None => None end).
+Definition skip_exact_of (d : bool) (r : MNF.resolved) (name : BS.str) : bool :=
+  match r with MNF.RAll => d | MNF.RSkipOnly _ sx => BS.mem_str name sx | MNF.RPatterns _ _ _ sx => BS.mem_str name sx end.
+Definition skip_match_of (d : bool) (r : MNF.resolved) (name : BS.str) : bool :=
+  match r with MNF.RAll => d | MNF.RSkipOnly sk _ => MNF.any_infix sk name | MNF.RPatterns _ _ sk _ => MNF.any_infix sk name end.
+Definition exact_of (d : bool) (r : MNF.resolved) (name : BS.str) : bool :=
+  match r with MNF.RPatterns _ ex _ _ => BS.mem_str name ex | _ => d end.
+Definition pattern_match_of (d : bool) (r : MNF.resolved) (name : BS.str) : bool :=
+  match r with MNF.RPatterns su _ _ _ => MNF.any_infix su name | _ => d end.
+Definition partition_matches_of (d : bool) (pb : option MFl.pbuilder) (cur : N) (name : BS.str) : bool :=
+  match pb with Some b => fst (MFl.part_match b cur name) | None => d end.
+
+Lemma existsb_set_tokens_from :
+  forall (l pre : list (BS.str -> bool)) name,
+    existsb (fun i => nth (N.to_nat i) (pre ++ l) (fun _ => false) name) (map N.of_nat (seq (length pre) (length l))) =
+    existsb (fun g => g name) l.
+Proof.
+  induction l as [|a l IH]; intros pre name; [reflexivity|].
+  cbn [length seq map existsb]. rewrite Nat2N.id, nth_middle. f_equal.
+  specialize (IH (pre ++ [a]) name). rewrite <- app_assoc in IH. cbn [app] in IH.
+  rewrite app_length in IH. cbn [length] in IH. rewrite Nat.add_1_r in IH. exact IH.
+Qed.
+Lemma existsb_set_tokens :
+  forall ets name, existsb (fun v => set_matches_of_model ets name v) (set_tokens ets) = existsb (fun g => g name) ets.
+Proof. intros. exact (existsb_set_tokens_from ets [] name). Qed.
+
+
+(* == block filter_match (needs conv_filter) == *)
+(* TestFilter::filter_match as a whole -- filter_ignored_mismatch, then ResolvedFilterPatterns::name_match and
+   filter_expression_match combined with the name reason first, then filter_partition_mismatch, else Matches --
+   regenerated from the source, is Model/FilterFull.v's [filter_match_full] for every filter, partitioner state, test name
+   and ignored flag. *)
+Lemma gen_filter_match_is_model :
+  forall (f : MFF.tfilter) cur name ign tb tn ecx d,
+    gfmatch_to_model
+      (G.TestFilter_filter_match (filter_view f) tb tn ecx (bound_of_model (MFF.tf_bound f)) ign
+         (skip_exact_of d (MFF.tf_pats f) name) (skip_match_of d (MFF.tf_pats f) name)
+         (exact_of d (MFF.tf_pats f) name) (pattern_match_of d (MFF.tf_pats f) name)
+         (set_matches_of_model (MFF.tf_ets f) name) (MFF.tf_dt f name)
+         (partition_matches_of d (MFF.tf_pb f) cur name)) =
+    fst (MFF.filter_match_full f cur name ign).
+Proof.
+  intros [ri pb pats ets dt bd] cur name ign tb tn ecx d.
+  unfold MFF.filter_match_full, MFF.pre_full, MFF.filter_expression_match, MFl.filter_match, filter_view,
+    G.TestFilter_filter_match, G.TestFilter_filter_expression_match, G.TestFilter_filter_partition_mismatch,
+    partition_matches_of.
+  cbn [MFF.tf_ri MFF.tf_pb MFF.tf_pats MFF.tf_ets MFF.tf_dt MFF.tf_bound G.TestFilter_builder_exprs G.TestFilter_partitioner].
+  destruct pb as [b|]; [destruct (MFl.part_match b cur name) as [ok cur'] |];
+  (destruct ets as [|e0 ets']; cbn [exprs_of_model];
+   [| rewrite existsb_set_tokens; generalize (existsb (fun g => g name) (e0 :: ets')); intro anyb ];
+   generalize (dt name); intro dtb;
+   destruct pats; cbn [skip_exact_of skip_match_of exact_of pattern_match_of MNF.rname_match patterns_of_model];
+   repeat match goal with |- context [BS.mem_str ?a ?b] => generalize (BS.mem_str a b); intro end;
+   repeat match goal with |- context [MNF.any_infix ?a ?b] => generalize (MNF.any_infix a b); intro end;
+   bridge).
+Qed.
+
+(* read off the generated function alone: with a partitioner, nothing is selected that the partitioner did not accept --
+   whichever of MatchEmptyPatterns / MatchWithPatterns the name and expression stages answered *)
+Lemma gen_filter_match_needs_partition :
+  forall self tb tn ecx bd ign p1 p2 p3 p4 pm pd pp tok,
+    G.TestFilter_partitioner self = Some tok ->
+    G.TestFilter_filter_match self tb tn ecx bd ign p1 p2 p3 p4 pm pd pp = G.FilterMatch_Matches -> pp = true.
+Proof.
+  intros [ri pats exprs part] tb tn ecx bd ign p1 p2 p3 p4 pm pd pp tok Hp. cbn in Hp. subst part.
+  unfold G.TestFilter_filter_match, G.TestFilter_filter_expression_match, G.TestFilter_filter_partition_mismatch,
+    G.TestFilter_filter_name_match, G.ResolvedFilterPatterns_name_match, G.TestFilter_filter_ignored_mismatch.
+  cbn [G.TestFilter_builder_exprs G.TestFilter_partitioner G.TestFilter_builder_patterns G.TestFilter_builder_run_ignored].
+  destruct exprs as [|l]; [| generalize (existsb (fun v_expr => pm v_expr) l); intro anyb ];
+  bridge_norm; repeat (bridge_case; cbv beta iota); intro H; first [reflexivity | discriminate H].
 Qed.
